@@ -21,7 +21,7 @@ EXPLANATION = 'reference predicate: same kind and shape, labels pairwise == in o
 EXHAUSTIVE = {'quick': False, 'thorough': False}
 ASSUMPTIONS = ['None == None is ordinary equality regardless of skipna', 'cell / label equality is NumPy/Python == on the elements (1 == 1.0 == True)',
                'the identical object is always equal to itself (reflexivity)']
-TIERS = {'quick': {'shards': 8, 'budget_s': 150, 'min_nontrivial': 20000},
+TIERS = {'quick': {'shards': 8, 'budget_s': 150, 'min_nontrivial': 10000},
          'thorough': {'shards': 16, 'budget_s': 1500, 'min_nontrivial': 300000}}
 ANCHORS = {
     'static_frame.core.type_blocks': ['TypeBlocks.equals'],
@@ -40,12 +40,18 @@ _DT = ['int64', 'float64', 'bool', '<U5', 'object', 'M8[D]']
 
 
 def probes(ctx):
-    return []
+    nat = np.datetime64('NaT', 'D')
+    d = np.datetime64('2020-01-01')
+    return [
+        {'kind': 'frame', 'seed': 1, 'spec': F.FrameSpec(['r', 's'], [], 'str', 'auto', [], [[], []], 'n')},
+        {'kind': 'frame', 'seed': 2, 'spec': F.FrameSpec([0, 1], [15, 21, 20, 29], 'auto', 'int', ['M8[D]', 'M8[D]', 'int64', 'int64'],
+                                                     [[d, nat, -40, 3], [d, d, -40, 3]], 'n')},
+    ]
 
 
 def generate(ctx):
     rng = ctx.rng
-    for _ in range(ctx.n(700, 12000)):
+    for _ in range(ctx.n(360, 12000)):
         kind = rng.choice(['series', 'series', 'frame', 'frame', 'frame', 'index', 'hier', 'bus'])
         case = {'kind': kind, 'seed': rng.randrange(1 << 30)}
         if kind == 'frame' or kind == 'bus':
